@@ -13,7 +13,9 @@ REGISTRATION = {
             "the same for the bounded model (channel capacities, lock order). Decision theorems about the decision functions the "
             "model shares with the code (options are an abstract value compared by equality - what counts as equal is decided by "
             "the real needsReload and checked by trace conformance and the c11-no-reuse / c11-wrong-options monitors; the memory-fit "
-            "answer is an oracle `Fit` whose producers are checked by C16's L1 ties run inside this check): a compatible healthy "
+            "answer is an oracle `Fit` in the scheduler model; its producers and the processPending glue around it are C16's model - "
+            "load_sound, load_alloc_within_reported, history_within_total, cpu_load_within_system_memory are audited here too and "
+            "C16's five L1 ties (estimate, free space, pick, load glue, cpu branch) run inside this check): a compatible healthy "
             "loaded runner is reused without starting one, incompatible options / failed ping expire it and the new runner gets the "
             "request's options, the eviction victim is idle whenever an idle runner exists, a new runner is started next to loaded "
             "ones only on a predicted fit, otherwise evict (or wait for loads in progress); instances on reachable states. End to end (OptsInv): a step that hands runner r to "
@@ -22,7 +24,7 @@ REGISTRATION = {
     "note": COMMON_NOTE + "Outside the model: preemption inside a locked region, real timers, unloadAllRunners at shutdown, the cuda "
             "VRAM-recovery poller; options are an abstract value compared by equality; the cpu path loads when `loaded` was emptied meanwhile (Go re-reads the count).",
 }
-MODULES = ["OllamaVerif.Properties.C11", "OllamaVerif.Properties.C02Chan", "OllamaVerif.Properties.C11Limit", "OllamaVerif.Properties.C11Opts", "OllamaVerif.Tie.C01"]
+MODULES = ["OllamaVerif.Properties.C11", "OllamaVerif.Properties.C02Chan", "OllamaVerif.Properties.C11Limit", "OllamaVerif.Properties.C11Opts", "OllamaVerif.Properties.C16", "OllamaVerif.Tie.C01"]
 THEOREMS = [
     "OllamaVerif.C11.live_runner_is_loaded",
     "OllamaVerif.C11.one_runner_per_model",
@@ -41,6 +43,14 @@ THEOREMS = [
     "OllamaVerif.Tie.C01.expired_region_is_atomic",
     "OllamaVerif.Tie.C01.tree_one_runner_per_model",
     "OllamaVerif.Tie.C01.tree_live_count_le_max",
+    "OllamaVerif.C16.load_sound",
+    "OllamaVerif.C16.load_alloc_within_reported",
+    "OllamaVerif.C16.load_not_on_loading_gpu",
+    "OllamaVerif.C16.history_within_total",
+    "OllamaVerif.C16.history_from_empty",
+    "OllamaVerif.C16.cpu_load_within_system_memory",
+    "OllamaVerif.C16.effParallel_forced",
+    "OllamaVerif.C16.full_fit_places_all",
     "OllamaVerif.Sched.reach_optsInv",
     "OllamaVerif.C11.granted_runner_has_request_options",
     "OllamaVerif.C11.maxRunners_stable",
